@@ -453,7 +453,7 @@ void vx_case_end(void) {
 void vx_input(uint64_t digest, int nontrivial) {
   if (!nontrivial || !digest) return;
   if (S->set_saturated) return;
-  uint64_t cap = S->setcap, h = digest * 0x9E3779B97F4A7C15ULL;
+  uint64_t cap = S->setcap, h = digest; h ^= h >> 33; h *= 0xff51afd7ed558ccdULL; h ^= h >> 33; h *= 0xc4ceb9fe1a85ec53ULL; h ^= h >> 33;
   for (uint64_t i = 0; i < 64; i++) {
     uint64_t k = (h + i) & (cap - 1), v = SET[k];
     if (v == digest) return;
